@@ -173,6 +173,24 @@ def run(ctx, idx):
         memo = K.memoised_helpers(idx, d_.execute)
         ctx.ob("C17.h", "%s.execute::no-result-cache" % d_.key, d_.module.rel, (memo[0][0].node.lineno if memo else d_.execute.node.lineno), not memo,
                "no cached helper on the path" if not memo else "`%s` is cached with `@%s`: a column read once is returned again after the file changed" % (memo[0][0].name, memo[0][1]))
+    ctx.rule("C17.i", "The table format is fixed: csv.reader / csv.writer are given the line source (and constant format options) only - no dialect sniffed from the data, no delimiter computed at run time. A guessed delimiter turns a one-column table of decimals into two columns at the decimal point.")
+    n_csv = 0
+    for d_, _r in (rd, wr):
+        fi_ = d_.execute
+        for n_ in ast.walk(fi_.node):
+            if not isinstance(n_, ast.Call):
+                continue
+            q_ = idx.qualname(fi_.module, n_.func, fi_) or K.src(n_.func)
+            if q_ in ("csv.Sniffer",) or q_.endswith(".sniff") or q_.endswith("Sniffer"):
+                ctx.violate("C17.i", "%s.execute::fixed-format" % d_.key, d_.module.rel, n_.lineno, "`%s`: the separator and quoting are guessed from the file's first lines - a single column of decimals (no comma anywhere) makes the decimal point, a digit or the minus sign the most consistent 'delimiter', and every value is silently cut at it" % K.src(n_)[:60])
+                n_csv += 1
+            if q_ in ("csv.reader", "csv.writer", "csv.DictReader", "csv.DictWriter"):
+                n_csv += 1
+                extra = list(n_.args[1:]) + [k.value for k in n_.keywords if k.arg in ("dialect", "delimiter", "quotechar", "escapechar", "quoting", "skipinitialspace", "doublequote")]
+                varying = [x_ for x_ in extra if not isinstance(x_, ast.Constant) and not (isinstance(x_, ast.Attribute) and (idx.qualname(fi_.module, x_, fi_) or "").startswith("csv."))]
+                ctx.ob("C17.i", "%s.execute::fixed-format@%s" % (d_.key, q_.split(".")[-1]), d_.module.rel, n_.lineno, not varying,
+                       "constant format options" if not varying else "`%s` is given a format (`%s`) decided at run time: the same file may be split differently from what the writer produced" % (K.src(n_)[:50], K.src(varying[0])[:40]))
+    ctx.floor("C17.i", "csv reader / writer constructions", n_csv, 2)
     d, r = rd
     n = iorules.param_domains(ctx, idx, "C17.a", d)
     ctx.floor("C17.a", "defaults / comparisons of cleaned parameters", n, 1)
@@ -305,7 +323,7 @@ def run(ctx, idx):
     ok = bool(wrow) and any(wrow[0].args and (wrow[0].args[0] is hh or (isinstance(wrow[0].args[0], ast.Name) and K.expand(fi, wrow[0].args[0]) is not None and K.src(K.expand(fi, wrow[0].args[0])) == K.src(hh))) for hh in header)
     ctx.ob("C17.d", "%s.execute::header-written" % d.key, d.module.rel, wrow[0].lineno if wrow else fi.node.lineno, ok, "the header row is the result names, written through the csv writer" if ok else "the header row is not the list of result names handed to the csv writer's writerow: names are then not CSV-quoted (a name containing a comma or a quote shifts every later column) or not written at all")
     lossy = []
-    for n in own_nodes(fi.node):
+    for n in ast.walk(fi.node):  # helpers defined inside execute included (a per-cell conversion function)
         if isinstance(n, ast.Call):
             q = idx.qualname(fi.module, n.func, fi) or K.src(n.func)
             nm = q.split(".")[-1]
